@@ -72,7 +72,7 @@ var WrapKinds = []string{
 	"goerrorf", "goerrorfsuffix", "ospath", "oslink", "ossyscall", "netop", "dnswrap",
 	"pkgmsg", "pkgstack", "pkgwrap",
 	"uwrapnofmt", "uwrapcause", "uwraptransparent", "uwrapsuffix", "uwrapoverride",
-	"uwrapformatter", "uwrapsafefmt", "uopt", "uwrapfmtold", "rwrapfull", "uwrapasself", "newfwerr",
+	"uwrapformatter", "uwrapsafefmt", "uopt", "uwrapfmtold", "rwrapfull", "uwrapasself", "newfwerr", "ukeymarker",
 }
 
 var MultiKinds = []string{"join", "gojoin", "goerrorfmulti", "umulti", "rmulti", "umulticause"}
@@ -233,7 +233,7 @@ func (g *Cfg) WrapOf(t *rapid.T, k string, c *Spec) *Spec {
 		for i := 0; i < n; i++ {
 			s.S = append(s.S, str(t, "key"))
 		}
-	case "domain", "handleddomain":
+	case "domain", "handleddomain", "ukeymarker":
 		s.S = []string{str(t, "domain")}
 	case "handleddomainmsg":
 		s.S = []string{str(t, "domain"), str(t, "msg")}
